@@ -200,7 +200,16 @@ const (
 
 func classify(ctx *hx.Ctx, id int, c *Case, res *Result, feats []string) {
 	ti := analyse(res.ents)
+	badChunkOps := false
+	for _, m := range c.Ops {
+		if m.Op == "gap" || m.Op == "swapchunks" {
+			badChunkOps = true
+		}
+	}
 	for _, p := range res.problems {
+		if badChunkOps && strings.Contains(p, "OpenFileWithPreReader differs") {
+			continue // a chunk table that does not tile is not a valid blob: bytes are not compared
+		}
 		ctx.Violation(id, p, nil)
 	}
 	if res.neighbourNull {
